@@ -69,7 +69,11 @@ func C16(p *core.Prog, rep *core.Report) {
 						// table row: creating the data directory itself before the lock can exist in it
 						return nil, false
 					}
-					x.Report("PS4", "Open|touch-under-lock", fmt.Sprintf("%s is reached while the directory lock is not held (state %s)", name, a), in)
+					ek := "Open"
+					if x.Root().Fn != open {
+						ek = core.FuncKey(x.Root().Fn)
+					}
+					x.Report("PS4", ek+"|touch-under-lock", fmt.Sprintf("%s is reached while the directory lock is not held (state %s): another opener may own the directory", name, lockState(a)), in)
 				} else {
 					touched = append(touched, name+"@"+p.InstrPos(in))
 				}
@@ -210,12 +214,16 @@ func C16(p *core.Prog, rep *core.Report) {
 		core.Failf("vacuity guard: no return found in (*DB).Close")
 	}
 	rep.Check(len(bad) == 0, "PS4", "(*DB).Close|all-returns", fmt.Sprintf("Close releases the directory lock on each of its %d exits", len(exits)), p.Pos(cl.Pos()), strings.Join(bad, "; "), true)
+	closeTouch := false
 	for _, f := range eng.Findings {
-		if f.Construct == "Open|touch-under-lock" {
-			continue // Close runs with the lock held until its deferred release; mutations after release would be reported here
-		}
 		ob := rep.Bad(f.Rule, f.Construct, f.Msg, f.Pos, f.Msg)
 		ob.Path, ob.Stack = f.Trace, f.Stack
+		if strings.Contains(f.Construct, "touch-under-lock") {
+			closeTouch = true
+		}
+	}
+	if !closeTouch {
+		rep.OK("PS4", core.FuncKey(cl)+"|touch-under-lock", "Close performs no file-system mutation after it released the directory lock (the lock file itself is never removed: every opener must lock the same inode)", p.Pos(cl.Pos()), true)
 	}
 	rep.Stats["activations"] = eng.Activations
 	rep.Stats["path_states"] = eng.StatesSeen
